@@ -2,18 +2,14 @@
    honour their contracts.  Statements only; each closed by `exact <lemma>`; Print Assumptions
    under each.
 
-   Model: coq/Model/Veneers.v (every builder rule, option action, selector, the YAML-level
-   loader and Rewriter.ApplyTo, one Gallina function per Go function).  The builders carry LABELS
-   on the two kinds of cells the Go code writes through after copying options shallowly (the
-   pointee of Assignment.Value.Argument, the backing array of Option.Args): `apply_to` is the
-   code as it runs (a write reaches every holder of the cell), `interference` tells whether any
-   write reached a holder other than the option being rewritten.
+   Model: coq/Model/Veneers.v — every builder rule, option action, selector, the YAML-level loader,
+   Rewriter.ApplyTo, Builder.MakePath and Path.Append, one Gallina function per Go function, purely
+   functional: since /repo a8e18fa (array_to_append, map_to_index, rename_arguments work on copies)
+   and 0b5ce6d (a composed builder owns its constructor and properties) no rule writes through
+   anything that shallow copies share.  The correspondence is strict: cog's output must EQUAL
+   `apply_to`.
    Checkers (coq/Model/VeneersSpec.v), evaluated by the correspondence on the REAL output:
-   `WT` (well-typed builder), `frame_ok` (unselected builders/options unchanged), contracts.
-
-   The unrestricted statements are FALSE on the faithful model (and on cog: the witnesses below
-   are reproduced by the correspondence harness); they are kept visible as `_refuted`, next to
-   what does hold (`_partial`) under an explicit boolean side condition. *)
+   `WT` (well-typed builder), `frame_ok` (unselected builders/options unchanged), contracts. *)
 From Coq Require Import List String Bool ZArith.
 From Cog Require Import Model.IR Model.IREq Model.Builders Model.BuildersEq Model.Veneers Model.VeneersSpec Proofs.VeneersProofs
                         Gen.VeneerRegistry_gen.
@@ -21,250 +17,284 @@ Import ListNotations.
 Local Open Scope string_scope.
 Local Open Scope list_scope.
 
+(* ================================================================ frame: holds unconditionally *)
+(* for ALL schema sets, builder sets, rule files (all 22 rules, any selectors and parameters) and
+   languages, as Rewriter.ApplyTo runs them (common rules then language rules; builder rules then
+   option rules; builders left without option dropped): the frame checker holds of the result —
+   every builder that no builder rule selects is still there with the same object, package, name,
+   properties, constructor and factories, and with every option of it that no option rule selects.
+   `frame_ok` is the checker the correspondence evaluates on cog's own output. *)
+Theorem unselected_unchanged : forall ss files lang bs lrs bs',
+  rewriter_from files = Ok lrs -> apply_to ss files lang bs = Ok bs' -> frame_ok ss lrs lang bs bs' = true.
+Proof. exact unselected_unchanged_proof. Qed.
+Print Assumptions unselected_unchanged.
+
+(* the same with Leibniz equalities instead of the decidable ones *)
+Theorem unselected_unchanged_detailed : forall ss files lang bs lrs bs' b kept,
+  rewriter_from files = Ok lrs -> apply_to ss files lang bs = Ok bs' ->
+  In b bs ->
+  (forall r, In r (builder_rules_for all_languages lrs ++ builder_rules_for lang lrs) -> sel_builder ss (brule_selector r) b = false) ->
+  (forall o, In o kept -> In o (b_options b)) ->
+  (forall r o, In r (option_rules_for all_languages lrs ++ option_rules_for lang lrs) -> In o kept -> sel_option (or_sel r) b o = false) ->
+  kept <> [] ->
+  exists b', In b' bs' /\ same_header b b' /\ forall o, In o kept -> In o (b_options b').
+Proof. exact unselected_unchanged_detailed_proof. Qed.
+Print Assumptions unselected_unchanged_detailed.
+
+(* every single builder rule (all ten): an unselected builder is in the result, identical *)
+Theorem unselected_builders_unchanged : forall ss r bs bs' b,
+  apply_builder_rule ss r bs = Ok bs' -> In b bs -> sel_builder ss (brule_selector r) b = false -> In b bs'.
+Proof. exact builder_rule_frame. Qed.
+Print Assumptions unselected_builders_unchanged.
+
+(* every single option rule (all twelve actions): every builder keeps its header and its unselected options *)
+Theorem unselected_options_unchanged : forall ss r bs bs' b,
+  apply_option_rule ss r bs = Ok bs' -> In b bs ->
+  exists b', In b' bs' /\ same_header b b' /\
+             forall o, In o (b_options b) -> sel_option (or_sel r) b o = false -> In o (b_options b').
+Proof. exact apply_option_rule_frame. Qed.
+Print Assumptions unselected_options_unchanged.
+
 (* ================================================================ well-typedness *)
 (* full statement: for all schema sets, rule files (whose own parameters are well-formed),
-   languages and well-typed builder sets, the rewritten builders are well-typed.  REFUTED:
-   `rename_arguments` renames the option's argument and the argument its assignment uses but not
-   the copy held by the assignment's constraints; `array_to_append`, `map_to_index` and
-   `rename_arguments` write through a *Argument that merge_into / compose /
-   promote_options_to_constructor / add_option left shared with another option or with the
-   constructor, whose declared arguments are not updated (witnesses: Proofs/VeneersProofs.v). *)
+   languages and well-typed builder sets, the rewritten builders are well-typed.  Still REFUTED
+   on the current code, in three ways (open findings), each a run of the model whose rule file is a
+   fixed case of the correspondence and so replays on cog at every run: *)
 Theorem rules_preserve_WT_refuted :
   ~ (forall ss files lang bs bs',
        consistent ss bs = true -> WTs ss bs = true -> files_wf files = true ->
        apply_to ss files lang bs = Ok bs' -> WTs ss bs' = true).
 Proof. exact rules_preserve_WT_refuted_proof. Qed.
 Print Assumptions rules_preserve_WT_refuted.
-
-(* the three ways it fails, each a concrete run of the model *)
-Theorem rules_preserve_WT_refuted_by_shared_argument :
-  wt_witness w_files_shared = true /\ interference w_schemas w_files_shared "go" w_before = true.
-Proof. exact wt_witness_shared. Qed.
-Print Assumptions rules_preserve_WT_refuted_by_shared_argument.
-Theorem rules_preserve_WT_refuted_by_promoted_argument :
-  wt_witness w_files_promote = true /\ interference w_schemas w_files_promote "go" w_before = true.
-Proof. exact wt_witness_promote. Qed.
-Print Assumptions rules_preserve_WT_refuted_by_promoted_argument.
-Theorem rules_preserve_WT_refuted_by_stale_constraint :
-  wt_witness w_files_constraint = true /\ interference w_schemas w_files_constraint "go" w_before = false.
+(* rename_arguments renames Args and the value argument but not the copy held by a constraint *)
+Theorem rules_preserve_WT_refuted_by_stale_constraint : wt_witness w_files_constraint = true.
 Proof. exact wt_witness_constraint. Qed.
 Print Assumptions rules_preserve_WT_refuted_by_stale_constraint.
+(* merge_into (and compose) do not check that the target path leads to the merged builder's object *)
+Theorem rules_preserve_WT_refuted_by_unchecked_target : wt_witness w_files_target = true.
+Proof. exact wt_witness_target. Qed.
+Print Assumptions rules_preserve_WT_refuted_by_unchecked_target.
+(* unfold_boolean (like map_to_index, struct_fields_as_*, promote) assumes the shape FromAST derives *)
+Theorem rules_preserve_WT_refuted_by_assumed_shape : wt_witness w_files_shape = true.
+Proof. exact wt_witness_shape. Qed.
+Print Assumptions rules_preserve_WT_refuted_by_assumed_shape.
+(* what used to refute it (merge_into then array_to_append on the merged copy) no longer does *)
+Theorem merge_then_append_no_longer_refutes :
+  match apply_to w_schemas w_files_merge_ok "go" w_before with
+  | Ok bs' => WTs w_schemas bs' && existsb (fun b' => existsb (builder_eqb b') w_before && seqb (b_name b') "Foo") bs'
+  | _ => false
+  end = true.
+Proof. exact merge_then_append_is_fine. Qed.
+Print Assumptions merge_then_append_no_longer_refutes.
 
-(* what holds: for ALL schema sets, builder sets, selectors, parameters and ALL sequences (common
-   rules then language rules, builder rules then option rules, as Rewriter.ApplyTo runs them) made
-   of the rules of the safe group `wt_safe_rules` — builder rules omit, rename, properties,
-   duplicate, initialize, add_factory; option rules omit, rename, add_comments, duplicate — the
-   result is well-typed, and no write ever reaches a shared cell.  (The other rules are outside
-   this theorem: each of them has inputs on which it breaks WT — see the refutations above and the
-   findings reported by the check.) *)
+(* what holds, for ALL schema sets, builder sets, selectors, parameters and ALL sequences as
+   Rewriter.ApplyTo runs them: 12 of the 22 rules can never break WT — builder rules omit, rename,
+   properties, duplicate, initialize, add_factory and add_option (whose option only uses the
+   arguments it declares); option rules omit, rename, add_comments, duplicate and add_assignment
+   (of a constant or an envelope of constants).  `wt_safe_rules` is that boolean side condition. *)
 Theorem rules_preserve_WT_partial : forall ss files lang bs lrs bs',
   rewriter_from files = Ok lrs -> wt_safe_rules lrs = true ->
-  lconsistent ss (label_builders 0 bs) -> WTs ss bs = true ->
-  apply_to ss files lang bs = Ok bs' -> WTs ss bs' = true /\ interference ss files lang bs = false.
+  consistent_with ss bs -> WTs ss bs = true ->
+  apply_to ss files lang bs = Ok bs' -> WTs ss bs' = true.
 Proof. exact rules_preserve_WT_partial_proof. Qed.
 Print Assumptions rules_preserve_WT_partial.
 
-(* array_to_append and map_to_index on an option of the shape FromAST derives (one argument, one
-   assignment of it to a path ending in the argument's type) return well-typed options: what
-   breaks WT is sharing, or an earlier rule that left another shape *)
-Theorem array_to_append_preserves_WT_on_derived_options : forall ss root base o a first os effs,
-  derived_shape o a first -> lopt_wt ss root o = true -> array_to_append_action base o = Ok (os, effs) ->
-  forallb (lopt_wt ss root) os = true.
+(* merge_into under the exact condition the code does not check (finding
+   C17-merge-compose-unchecked-target): the path leads to the object the source builds *)
+Theorem merge_into_preserves_WT_when_target_checked : forall ss s src under excl ren bs bs',
+  (forall cur dest, consistent_with ss cur -> Forall (fun b => WT ss b = true) cur -> In dest cur -> sel_builder ss s dest = true ->
+                    merge_target_checked ss cur dest src under) ->
+  consistent_with ss bs -> Forall (fun b => WT ss b = true) bs ->
+  apply_builder_rule ss (BRMergeInto s src under excl ren) bs = Ok bs' ->
+  consistent_with ss bs' /\ Forall (fun b => WT ss b = true) bs'.
+Proof. exact merge_into_rule_wt_proof. Qed.
+Print Assumptions merge_into_preserves_WT_when_target_checked.
+
+(* the five option actions that rewrite arguments keep an option of the shape FromAST derives
+   (one argument, one assignment of it to a path ending in the argument's type) well-typed;
+   `from_ast_options_have_derived_shape` says FromAST's options have it.  rename_arguments,
+   array_to_append, map_to_index need an assignment without constraints (finding
+   C17-rename-arguments-stale-constraints; arrays and maps never carry any). *)
+Theorem from_ast_options_have_derived_shape : forall f o, struct_field_to_option f = Ok o ->
+  exists a first, derived_shape o a first /\ a = mkArg (f_name f) (f_type f) /\ as_path first = path_from_struct_field f.
+Proof. exact derived_shape_of_from_ast. Qed.
+Print Assumptions from_ast_options_have_derived_shape.
+Theorem array_to_append_preserves_WT_on_derived_options : forall ss root o a first os,
+  derived_shape o a first -> as_constraints first = [] -> opt_wt ss root o = true -> array_to_append_action o = Ok os ->
+  forallb (opt_wt ss root) os = true.
 Proof. exact array_to_append_derived_wt. Qed.
 Print Assumptions array_to_append_preserves_WT_on_derived_options.
-Theorem map_to_index_preserves_WT_on_derived_options : forall ss root base o a first os effs,
-  derived_shape o a first -> lopt_wt ss root o = true -> map_to_index_action base o = Ok (os, effs) ->
-  forallb (lopt_wt ss root) os = true.
+Theorem map_to_index_preserves_WT_on_derived_options : forall ss root o a first os,
+  derived_shape o a first -> as_constraints first = [] -> opt_wt ss root o = true -> map_to_index_action o = Ok os ->
+  forallb (opt_wt ss root) os = true.
 Proof. exact map_to_index_derived_wt. Qed.
 Print Assumptions map_to_index_preserves_WT_on_derived_options.
+Theorem unfold_boolean_preserves_WT_on_derived_options : forall ss root o a first tn fn os,
+  derived_shape o a first -> opt_wt ss root o = true -> unfold_boolean_action tn fn o = Ok os ->
+  forallb (opt_wt ss root) os = true.
+Proof. exact unfold_boolean_derived_wt. Qed.
+Print Assumptions unfold_boolean_preserves_WT_on_derived_options.
+Theorem rename_arguments_preserves_WT_on_derived_options : forall ss root o a first names,
+  derived_shape o a first -> as_constraints first = [] -> opt_wt ss root o = true ->
+  forallb (opt_wt ss root) (rename_arguments_action names o) = true.
+Proof. exact rename_arguments_derived_wt. Qed.
+Print Assumptions rename_arguments_preserves_WT_on_derived_options.
+Theorem disjunction_as_options_preserves_WT_on_derived_options : forall ss root o a first da d os,
+  derived_shape o a first -> a_type a = TDisj da d -> opt_wt ss root o = true -> disjunction_as_options_action ss 0 o = Ok os ->
+  forallb (opt_wt ss root) os = true.
+Proof. exact disjunction_as_options_derived_wt. Qed.
+Print Assumptions disjunction_as_options_preserves_WT_on_derived_options.
 
-(* Builder.MakePath (initialize, merge_into, compose, add_option, add_assignment): a returned
-   path is a chain of existing fields with the recorded types, and uses no argument *)
-Theorem make_path_is_well_typed : forall ss bs b s p,
-  lconsistent ss bs -> make_path bs b s = Ok p -> path_ok ss (o_type (lb_for b)) p = true /\ path_args p = [].
+(* ================================================================ paths *)
+(* Path.Append keeps both operands, for a prefix of ANY length k (induction on k): the first k items
+   are the prefix, the suffix follows unchanged, the result ends where the suffix ends *)
+Theorem path_append_keeps_both : forall k (under p : path), List.length under = k ->
+  firstn k (path_append under p) = under /\ skipn k (path_append under p) = p /\
+  List.length (path_append under p) = k + List.length p /\
+  (p <> [] -> last_item (path_append under p) = last_item p).
+Proof. exact path_append_keeps. Qed.
+Print Assumptions path_append_keeps_both.
+
+(* Builder.MakePath: a chain of existing fields with the recorded types, one item per dotted
+   segment (any number of them), no argument, no index, no type hint *)
+Theorem make_path_is_well_typed : forall ss bs b s p, consistent_with ss bs -> make_path bs b s = Ok p ->
+  path_ok ss (o_type (b_for b)) p = true /\ path_args p = [] /\ List.length p = List.length (split_dots s) /\ p <> [] /\
+  Forall (fun it => pi_typehint it = None /\ pi_index it = None) p.
 Proof. exact make_path_ok. Qed.
 Print Assumptions make_path_is_well_typed.
 
-(* ================================================================ frame *)
-(* full statement: builders and options no rule selects come out identical.  REFUTED: after
-   merge_into (Foo into Bar), array_to_append on Bar.tags rewrites the assignment of Foo.tags,
-   an option of a builder that no rule selects. *)
-Theorem unselected_unchanged_refuted :
-  ~ (forall ss files lang bs lrs bs',
-       rewriter_from files = Ok lrs -> consistent ss bs = true -> WTs ss bs = true ->
-       apply_to ss files lang bs = Ok bs' -> frame_ok ss lrs lang bs bs' = true).
-Proof. exact unselected_unchanged_refuted_proof. Qed.
-Print Assumptions unselected_unchanged_refuted.
+(* merge_into under a path of k dotted segments, for EVERY k: the destination keeps its options, the
+   source's follow, and each of their assignments gets the SAME k-item prefix followed by its own path
+   unchanged — every merged option still ends at its own field *)
+Theorem merge_into_paths : forall ss src under excl ren cur dest dest' source,
+  consistent_with ss cur ->
+  merge_into_builder src under excl ren cur dest = Ok dest' ->
+  locate_by_name cur (o_selfpkg (b_for dest)) src = Some source ->
+  exists root k,
+    make_path cur dest under = Ok root /\ k = List.length (split_dots under) /\ List.length root = k /\
+    b_options dest' = b_options dest ++ map (merged_option root ren) (filter (fun o => negb (item_in_list (op_name o) excl)) (b_options source)) /\
+    forall a, as_path (prefix_path root a) = root ++ as_path a /\
+              firstn k (as_path (prefix_path root a)) = root /\ skipn k (as_path (prefix_path root a)) = as_path a /\
+              (as_path a <> [] -> last_item (as_path (prefix_path root a)) = last_item (as_path a)).
+Proof. exact merge_into_paths_proof. Qed.
+Print Assumptions merge_into_paths.
 
-(* what holds, for ALL rules, parameters, selectors and sequences: when no write reached a sharer
-   (`apply_to_l true ... = Ok (_, false)`, i.e. interference = false), a builder that no builder
-   rule selects is still there with the same object, package, name, properties, constructor and
-   factories, and with every option of it that no option rule selects — cells included. *)
-Theorem unselected_unchanged_partial : forall ss files lang bs lrs lbs' b kept,
-  rewriter_from files = Ok lrs ->
-  apply_to_l true ss files lang bs = Ok (lbs', false) ->
-  In b (label_builders 0 bs) ->
-  (forall r, In r (builder_rules_for all_languages lrs ++ builder_rules_for lang lrs) -> sel_builder ss (brule_selector r) b = false) ->
-  (forall o, In o kept -> In o (lb_options b)) ->
-  (forall r o, In r (option_rules_for all_languages lrs ++ option_rules_for lang lrs) -> In o kept -> sel_option (or_sel r) b o = false) ->
-  kept <> [] ->
-  exists b', In b' lbs' /\ lsame_but_options b b' /\ forall o, In o kept -> In o (lb_options b').
-Proof. exact unselected_unchanged_partial_proof. Qed.
-Print Assumptions unselected_unchanged_partial.
-
-(* the same, as the statement refuted above plus its side condition: without interference the
-   frame checker the correspondence evaluates on cog's output holds of the model's output *)
-Theorem unselected_unchanged_partial_checker : forall ss files lang bs lrs bs',
-  rewriter_from files = Ok lrs -> apply_to ss files lang bs = Ok bs' -> interference ss files lang bs = false ->
-  frame_ok ss lrs lang bs bs' = true.
-Proof. exact unselected_unchanged_checker_proof. Qed.
-Print Assumptions unselected_unchanged_partial_checker.
-
-(* every single builder rule (all ten, any parameters), unconditionally: an unselected builder
-   is in the result, identical *)
-Theorem unselected_builders_unchanged : forall ss t r bs bs' b,
-  apply_builder_rule ss t r bs = Ok bs' -> In b bs -> sel_builder ss (brule_selector r) b = false -> In b bs'.
-Proof. exact builder_rule_frame. Qed.
-Print Assumptions unselected_builders_unchanged.
-
-(* every single option rule (all twelve actions) on unshared data: every builder keeps its header
-   and its unselected options *)
-Theorem unselected_options_unchanged : forall ss t r bs bs' b,
-  apply_option_rule_pure ss t r bs = Ok bs' -> In b bs ->
-  exists b', In b' bs' /\ lsame_but_options b b' /\
-             forall o, In o (lb_options b) -> sel_option (or_sel r) b o = false -> In o (lb_options b').
-Proof. exact apply_option_rule_pure_frame. Qed.
-Print Assumptions unselected_options_unchanged.
-
-(* ... and the rule as the code runs it IS the rule on unshared data whenever no write reached a
-   sharer (the side condition of the partial statements is exactly what separates the two) *)
-Theorem no_interference_means_unshared : forall ss t r bs flag bs',
-  apply_option_rule ss t r bs flag = Ok (bs', false) -> flag = false /\ apply_option_rule_pure ss t r bs = Ok bs'.
-Proof. exact apply_option_rule_pure_agrees. Qed.
-Print Assumptions no_interference_means_unshared.
+(* a chain followed by a chain that starts where the first ends is a chain *)
+Theorem path_chain_append : forall ss q p cur,
+  path_ok_go ss cur (p ++ q) = path_ok_go ss cur p && path_ok_go ss (end_type cur p) q.
+Proof. exact path_ok_go_app. Qed.
+Print Assumptions path_chain_append.
 
 (* ================================================================ contracts (for all inputs and parameters) *)
-Theorem omit_removes : forall ss t s bs bs',
-  apply_builder_rule ss t (BROmit s) bs = Ok bs' ->
+Theorem omit_removes : forall ss s bs bs',
+  apply_builder_rule ss (BROmit s) bs = Ok bs' ->
   (forall b, In b bs' -> sel_builder ss s b = false /\ In b bs) /\
   (forall b, In b bs -> sel_builder ss s b = false -> In b bs').
 Proof. exact omit_removes_builders. Qed.
 Print Assumptions omit_removes.
 
-Theorem omit_removes_options : forall ss t i s b,
-  process_options_pure ss t i (mkORule s AOmit) b = Ok (filter (fun o => negb (sel_option s b o)) (lb_options b)).
+Theorem omit_removes_options : forall ss s b,
+  process_options ss (mkORule s AOmit) b = Ok (filter (fun o => negb (sel_option s b o)) (b_options b)).
 Proof. exact omit_option_spec. Qed.
 Print Assumptions omit_removes_options.
 
-Theorem rename_only_renames : forall ss t s n bs bs',
-  apply_builder_rule ss t (BRRename s n) bs = Ok bs' ->
+Theorem rename_only_renames : forall ss s n bs bs',
+  apply_builder_rule ss (BRRename s n) bs = Ok bs' ->
   bs' = map (fun b => if sel_builder ss s b then set_name b n else b) bs.
 Proof. exact rename_rule_spec. Qed.
 Print Assumptions rename_only_renames.
 
-Theorem rename_only_renames_options : forall ss t i s n b,
-  process_options_pure ss t i (mkORule s (ARename n)) b
-  = Ok (map (fun o => if sel_option s b o then set_oname o n else o) (lb_options b)).
+Theorem rename_only_renames_options : forall ss s n b,
+  process_options ss (mkORule s (ARename n)) b = Ok (map (fun o => if sel_option s b o then set_oname o n else o) (b_options b)).
 Proof. exact rename_option_spec. Qed.
 Print Assumptions rename_only_renames_options.
 
 (* the copy equals its source in every field but the name: object, package, properties,
-   constructor, options with their defaults, factories *)
-Theorem duplicate_is_identical_copy : forall ss t s n bs bs',
-  apply_builder_rule ss t (BRDuplicate s n []) bs = Ok bs' ->
-  erase_builders bs' = erase_builders bs ++ map (fun b => ewith_name (erase_builder b) n) (filter (sel_builder ss s) bs).
+   constructor, options with their defaults, factories (the model's DeepCopy is the identity; that
+   cog's is a faithful copy is re-checked on cog's output by the duplicate contracts) *)
+Theorem duplicate_is_identical_copy : forall ss s n bs bs',
+  apply_builder_rule ss (BRDuplicate s n []) bs = Ok bs' ->
+  bs' = bs ++ map (fun b => set_name b n) (filter (sel_builder ss s) bs).
 Proof. exact duplicate_rule_spec. Qed.
 Print Assumptions duplicate_is_identical_copy.
 
-Theorem duplicate_is_identical_copy_but_excluded : forall ss t s n e excl bs bs',
-  apply_builder_rule ss t (BRDuplicate s n (e :: excl)) bs = Ok bs' ->
-  erase_builders bs' = erase_builders bs ++
-    map (fun b => ewith_options (ewith_name (erase_builder b) n)
-                    (filter (fun o => negb (string_in_list_equal_fold (op_name o) (e :: excl))) (b_options (erase_builder b))))
-        (filter (sel_builder ss s) bs).
+Theorem duplicate_is_identical_copy_but_excluded : forall ss s n e excl bs bs',
+  apply_builder_rule ss (BRDuplicate s n (e :: excl)) bs = Ok bs' ->
+  bs' = bs ++ map (fun b => set_options (set_name b n)
+                              (filter (fun o => negb (string_in_list_equal_fold (op_name o) (e :: excl))) (b_options b)))
+                  (filter (sel_builder ss s) bs).
 Proof. exact duplicate_rule_spec_excl. Qed.
 Print Assumptions duplicate_is_identical_copy_but_excluded.
 
-Theorem duplicate_option_is_identical_copy : forall ss t base n b o,
-  exists o', run_action ss t base (ADuplicate n) b o = Ok ([o; o'], []) /\ erase_option o' = ewith_oname (erase_option o) n.
-Proof. exact duplicate_action_spec. Qed.
+Theorem duplicate_option_is_identical_copy : forall ss s n b,
+  process_options ss (mkORule s (ADuplicate n)) b
+  = Ok (flat_map (fun o => if sel_option s b o then [o; set_oname o n] else [o]) (b_options b)).
+Proof. exact duplicate_option_spec. Qed.
 Print Assumptions duplicate_option_is_identical_copy.
 
-Theorem array_to_append_same_target : forall base o os effs,
-  array_to_append_action base o = Ok (os, effs) ->
-  (os = [o] /\ effs = []) \/
-  exists a al v first rest o' first' rest',
-    lo_args o = [a] /\ a_type a = TArray al v /\ lo_assignments o = first :: rest /\
-    os = [o'] /\ lo_name o' = lo_name o /\ lo_comments o' = lo_comments o /\ lo_default o' = lo_default o /\
-    lo_args o' = [mkArg (singularize (a_name a)) v] /\
-    lo_assignments o' = first' :: rest' /\
-    la_path first' = la_path first /\ la_method first' = "append" /\
-    map la_path rest' = map la_path rest /\
-    (forall l x, la_arg first = Some (l, x) -> la_arg first' = Some (l, mkArg (singularize (a_name a)) v)).
+Theorem array_to_append_same_target : forall o os,
+  array_to_append_action o = Ok os ->
+  os = [o] \/
+  exists a al v first rest first',
+    op_args o = [a] /\ a_type a = TArray al v /\ op_assignments o = first :: rest /\
+    os = [mkOption (op_name o) (op_comments o) [mkArg (singularize (a_name a)) v] (first' :: rest) (op_default o)] /\
+    as_path first' = as_path first /\ as_method first' = "append" /\
+    as_constraints first' = as_constraints first /\ as_const first' = as_const first /\ as_env first' = as_env first /\
+    as_arg first' = match as_arg first with Some _ => Some (mkArg (singularize (a_name a)) v) | None => None end.
 Proof. exact array_to_append_spec. Qed.
 Print Assumptions array_to_append_same_target.
 
-Theorem map_to_index_same_target : forall base o os effs,
-  map_to_index_action base o = Ok (os, effs) ->
-  (os = [o] /\ effs = []) \/
-  exists a al it vt first rest o' first' rest',
-    lo_args o = [a] /\ a_type a = TMap al it vt /\ lo_assignments o = first :: rest /\
-    os = [o'] /\ lo_name o' = lo_name o /\ lo_comments o' = lo_comments o /\ lo_default o' = lo_default o /\
-    lo_args o' = [mkArg "key" it; mkArg (singularize (a_name a)) vt] /\
-    lo_assignments o' = first' :: rest' /\
-    la_path first' = la_path first ++ [mkPathItem "" (Some (mkPathIndex (Some (mkArg "key" it)) DNil)) vt None false] /\
-    la_method first' = "index" /\ map la_path rest' = map la_path rest /\
-    (forall l x, la_arg first = Some (l, x) -> la_arg first' = Some (l, mkArg (singularize (a_name a)) vt)).
+Theorem map_to_index_same_target : forall o os,
+  map_to_index_action o = Ok os ->
+  os = [o] \/
+  exists a al it vt first rest first',
+    op_args o = [a] /\ a_type a = TMap al it vt /\ op_assignments o = first :: rest /\
+    os = [mkOption (op_name o) (op_comments o) [mkArg "key" it; mkArg (singularize (a_name a)) vt] (first' :: rest) (op_default o)] /\
+    as_path first' = as_path first ++ [index_item (mkArg "key" it) vt] /\ as_method first' = "index" /\
+    as_constraints first' = as_constraints first /\ as_const first' = as_const first /\ as_env first' = as_env first /\
+    as_arg first' = match as_arg first with Some _ => Some (mkArg (singularize (a_name a)) vt) | None => None end.
 Proof. exact map_to_index_spec. Qed.
 Print Assumptions map_to_index_same_target.
 
-Theorem unfold_boolean_same_target : forall tn fn o os effs,
-  unfold_boolean_action tn fn o = Ok (os, effs) ->
-  effs = [] /\
-  (os = [o] \/
-   exists first rest d1 d2,
-     lo_assignments o = first :: rest /\
-     os = [mkLOpt tn (lo_comments o) [] [] [constant_lasg (la_path first) (DBool true)] d1;
-           mkLOpt fn (lo_comments o) [] [] [constant_lasg (la_path first) (DBool false)] d2]).
+Theorem unfold_boolean_same_target : forall tn fn o os,
+  unfold_boolean_action tn fn o = Ok os ->
+  os = [o] \/
+  exists first rest d1 d2,
+    op_assignments o = first :: rest /\
+    os = [mkOption tn (op_comments o) [] [constant_asg (as_path first) (DBool true)] d1;
+          mkOption fn (op_comments o) [] [constant_asg (as_path first) (DBool false)] d2].
 Proof. exact unfold_boolean_spec. Qed.
 Print Assumptions unfold_boolean_same_target.
 
-Theorem struct_fields_as_arguments_same_target : forall ss base explicit o os effs,
-  struct_fields_as_arguments_action ss base explicit o = Ok (os, effs) ->
-  effs = [] /\
-  (os = [o] \/
-   exists first rest o', lo_assignments o = first :: rest /\ os = [o'] /\ lo_name o' = lo_name o /\ lo_comments o' = lo_comments o /\
-     forall a', In a' (lo_assignments o') ->
-       In a' rest \/ la_path a' = la_path first \/ exists it, la_path a' = la_path first ++ [it] /\ pi_index it = None).
+Theorem struct_fields_as_arguments_same_target : forall ss explicit o os,
+  struct_fields_as_arguments_action ss explicit o = Ok os ->
+  os = [o] \/
+  exists first rest o', op_assignments o = first :: rest /\ os = [o'] /\ op_name o' = op_name o /\ op_comments o' = op_comments o /\
+    forall a', In a' (op_assignments o') ->
+      In a' rest \/ as_path a' = as_path first \/ exists it, as_path a' = as_path first ++ [it] /\ pi_index it = None.
 Proof. exact sfa_arguments_spec. Qed.
 Print Assumptions struct_fields_as_arguments_same_target.
 
-Theorem struct_fields_as_options_same_target : forall ss base explicit o os effs,
-  struct_fields_as_options_action ss base explicit o = Ok (os, effs) ->
-  effs = [] /\
-  (os = [o] \/
-   exists first rest, lo_assignments o = first :: rest /\
-     forall o', In o' os ->
-       exists f cs l, lo_name o' = f_name f /\ lo_comments o' = f_comments f /\ lo_args o' = [mkArg (f_name f) (f_type f)] /\
-         lo_assignments o' = [mkLAsg (la_path first ++ path_from_struct_field f) (Some (l, mkArg (f_name f) (f_type f)))
-                                     DNil None "direct" cs []]).
+Theorem struct_fields_as_options_same_target : forall ss explicit o os,
+  struct_fields_as_options_action ss explicit o = Ok os ->
+  os = [o] \/
+  exists first rest, op_assignments o = first :: rest /\
+    forall o', In o' os ->
+      exists f cs, op_name o' = f_name f /\ op_comments o' = f_comments f /\ op_args o' = [mkArg (f_name f) (f_type f)] /\
+        op_assignments o' = [mkAssignment (as_path first ++ path_from_struct_field f) (AValue (Some (mkArg (f_name f) (f_type f))) DNil None)
+                                          "direct" cs []].
 Proof. exact sfa_options_spec. Qed.
 Print Assumptions struct_fields_as_options_same_target.
 
-Theorem disjunction_as_options_same_target : forall ss base idx o os effs,
-  disjunction_as_options_action ss base idx o = Ok (os, effs) ->
-  effs = [] /\ forall o', In o' os ->
-    map la_path (lo_assignments o') = map la_path (lo_assignments o) /\
-    map la_method (lo_assignments o') = map la_method (lo_assignments o).
+Theorem disjunction_as_options_same_target : forall ss idx o os,
+  disjunction_as_options_action ss idx o = Ok os ->
+  forall o', In o' os ->
+    map as_path (op_assignments o') = map as_path (op_assignments o) /\
+    map as_method (op_assignments o') = map as_method (op_assignments o).
 Proof. exact disjunction_as_options_spec. Qed.
 Print Assumptions disjunction_as_options_same_target.
 
-(* DeepCopy as used by duplicate: same value *)
-Theorem deep_copy_is_same_value : forall base b, erase_builder (builder_deep_copy base b) = erase_builder b.
-Proof. exact erase_builder_deep_copy. Qed.
-Print Assumptions deep_copy_is_same_value.
-
-(* ================================================================ regenerated obligation *)
+(* ================================================================ regenerated obligations *)
 (* the members of yaml.BuilderRule / yaml.OptionRule as declared in /repo NOW, and the order in
    which AsRewriteRule tests them (coq/Gen/VeneerRegistry_gen.v, rewritten on every run), are the
    members the model and the harness know, dispatched first-declared-first as the model does *)
@@ -274,23 +304,32 @@ Theorem registry_matches_model :
 Proof. vm_compute. repeat split. Qed.
 Print Assumptions registry_matches_model.
 
+(* Path.Append as written in /repo NOW appends into a slice of its own and returns it (it never
+   extends the receiver or the parameter): the functional `path_append` is its model *)
+Theorem path_append_copies : path_append_class = "copying".
+Proof. vm_compute. reflexivity. Qed.
+Print Assumptions path_append_copies.
+
 (* ================================================================ non-vacuity *)
-(* on the witness schemas: a sequence of all ten safe rules runs, selects, and yields well-typed
-   builders: a renamed copy with an initialized constructor, a factory and a duplicated option *)
 Definition c17_example_files : list vfile :=
   [mkVFile "all" "alpha"
      [[YBDuplicate (mkYBSel (Some "Foo") None None None) "Copy" ["name"]];
       [YBRename (mkYBSel None (Some "copy") None None) "FooCopy"];
       [YBInitialize (mkYBSel None (Some "FooCopy") None None) [("name", DStr "n")]];
       [YBAddFactory (mkYBSel None (Some "FooCopy") None None) (mkFactory "New" [] [] [mkOptionCall "tags" []])];
+      [YBAddOption (mkYBSel None (Some "FooCopy") None None)
+                   (mkVOption "both" [] [mkArg "v" w_str] [mkVAssignment "name" "direct" (VValue (Some (mkArg "v" w_str)) DNil None)])];
       [YBProperties (mkYBSel (Some "Bar") None None None) [mkField "internal" [] w_str false]];
       [YBOmit (mkYBSel (Some "bar") None None None)]]
-     [[YODuplicate (mkYOSel (Some "Foo.tags") None None) "labels"];
+     [[YODuplicate (mkYOSel (Some "Foo.tags") None None) "more"];
       [YORename (mkYOSel None (Some "FooCopy.TAGS") None) "withTags"];
       [YOAddComments (mkYOSel (Some "Foo.name") None None) ["the name"]];
-      [YOOmit (mkYOSel None (Some "FooCopy.labels") None)]]].
+      [YOAddAssignment (mkYOSel None (Some "FooCopy.both") None) (mkVAssignment "name" "direct" (VValue None (DStr "c") None))];
+      [YOOmit (mkYOSel None (Some "FooCopy.more") None)]]].
 Example c17_nonvacuous :
-  exists bs', apply_to w_schemas c17_example_files "go" w_before = Ok bs' /\ WTs w_schemas bs' = true /\
+  exists lrs bs', rewriter_from c17_example_files = Ok lrs /\ wt_safe_rules lrs = true /\
+              apply_to w_schemas c17_example_files "go" w_before = Ok bs' /\ WTs w_schemas bs' = true /\
+              frame_ok w_schemas lrs "go" w_before bs' = true /\
               map (fun b => (b_name b, map op_name (b_options b), List.length (ct_assignments (b_ctor b)), List.length (b_factories b))) bs'
-              = [("Foo", ["tags"; "labels"; "name"], 0, 0); ("FooCopy", ["withTags"], 1, 1)].
-Proof. eexists. vm_compute. repeat split. Qed.
+              = [("Foo", ["tags"; "more"; "name"; "labels"], 0, 0); ("FooCopy", ["withTags"; "labels"; "both"], 1, 1)].
+Proof. do 2 eexists. vm_compute. repeat split. Qed.
